@@ -1,6 +1,7 @@
 import copy
 import keyword
 import re
+from collections import Counter
 from typing import Dict, Iterable, List, Tuple, Type, Union
 
 import inflection
@@ -253,6 +254,32 @@ def _generate_code(
     return imports, classes
 
 
+def _prepare_class_names(
+        structure: List[dict],
+        class_generator: Type[GenericModelCodeGenerator],
+        class_generator_kwargs: dict
+):
+    """
+    Convert the class name of every model before any code is rendered (a reference may be rendered earlier
+    than the class it points to) and add the model index to converted names that are not unique
+    """
+    def walk(nodes):
+        for data in nodes:
+            yield data["model"]
+            yield from walk(data["nested"])
+
+    models = list(walk(structure))
+    for model in models:
+        class_generator(model, **class_generator_kwargs)  # converts model name in place
+    while True:
+        counter = Counter(model.name for model in models)
+        duplicates = [model for model in models if counter[model.name] > 1]
+        if not duplicates:
+            break
+        for model in duplicates:
+            model.set_raw_name(model.name_joiner(model.name, model.index), generated=True)
+
+
 def generate_code(structure: ModelsStructureType, class_generator: Type[GenericModelCodeGenerator],
                   class_generator_kwargs: dict = None,
                   objects_delimiter: str = OBJECTS_DELIMITER,
@@ -269,6 +296,7 @@ def generate_code(structure: ModelsStructureType, class_generator: Type[GenericM
     """
     root, mapping = structure
     with AbsoluteModelRef.inject(mapping):
+        _prepare_class_names(root, class_generator, class_generator_kwargs or {})
         imports, classes = _generate_code(root, class_generator, class_generator_kwargs or {})
         imports_str = ""
     if imports:
